@@ -38,14 +38,8 @@ def devStrict (h : MHeap) : Op → Bool
      | some o => match alookup n o.props with | some prop => !prop.configurable | none => false)
   | _ => false
 
-/-- `Dev_error_own_name`: `new Error(m)` creates an own `name` property (ES5: inherited only) -/
-def devErrName : Op → Bool
-  | .native .err => true
-  | _ => false
-
 def devStep (h : MHeap) (op : Op) (_h' : MHeap) : List String :=
-  (if devStrict h op then ["strict_ignored"] else []) ++
-  (if devErrName op then ["error_own_name"] else [])
+  if devStrict h op then ["strict_ignored"] else []
 
 def devRun (h : MHeap) : List Op → List String
   | [] => []
@@ -153,38 +147,6 @@ def runS (l : List StepObs) : String := joinOr ";" (l.map stepS)
       A.<i>.<v>  x|y = v      P.<n>.<v>  arguments[n] = v     X.<n>  delete arguments[n]
       D.<n>.<desc>  Object.defineProperty(arguments, n, desc)     F  S  E   freeze / seal / preventExtensions -/
 
-/-- `Dev_arguments_never_unmapped`: [[DefineOwnProperty]] of the arguments object accepts an accessor
-    descriptor, or a data descriptor with writable:false, for an index that is still mapped to its
-    parameter (directly or through Object.freeze) – ES5 §10.6 removes the mapping, otto keeps it. -/
-def devArgUnmapAt (s : ArgState MProp) (n : Name) (d : MProp) : Bool :=
-  (argMapped s n).isSome && (d.isAccessorDescriptor || (d.writeSet && !d.writable)) && (argDefineOwn s n d).2
-
-def devArgFreeze (s : ArgState MProp) : List Name → Bool
-  | [] => false
-  | n :: ns =>
-    match argGetOwn s n with
-    | none => devArgFreeze s ns
-    | some prop =>
-      let u1 := prop.isDataDescriptor && prop.writable
-      let p1 := if u1 then prop.writeOff else prop
-      let u2 := p1.configurable
-      let p2 := if u2 then p1.configureOff else p1
-      if u1 || u2 then
-        match argDefineOwn s n p2 with
-        | (_, false) => false
-        | (s', true) => devArgUnmapAt s n p2 || devArgFreeze s' ns
-      else devArgFreeze s ns
-
-def devArgStep (s : ArgState MProp) : AOp → Bool
-  | .defn n d => (match toPropertyDescriptor d with | some desc => devArgUnmapAt s n desc | none => false)
-  | .freeze => devArgFreeze s (akeys s.o.props)
-  | _ => false
-
-def devArgRun (s : ArgState MProp) : List AOp → List String
-  | [] => []
-  | op :: ops =>
-    (if devArgStep s op then ["arguments_never_unmapped"] else []) ++ devArgRun (argStep s op).1 ops
-
 def aop? (tok : String) : Option AOp :=
   match tok.splitOn "." with
   | ["A", i, v] => do pure (.param (← nat? i) (← nat? v))
@@ -210,33 +172,6 @@ def arunS (l : List (AObs × List Call)) : String := joinOr ";" (l.map aobsS)
 /-! ### the global-binding requests:  g <op> …   (every op is a program of its own)
       I.<v>  NAME = v      V  var NAME      W.<v>  var NAME = v     Ev  eval('var NAME')
       F  function NAME(){}      Ef  eval('function NAME(){}')      X  delete NAME      D.<desc> defineProperty(this,'NAME',desc) -/
-
-/-- `Dev_global_function_redeclare`: a function declaration whose name is already bound in the global
-    object: ES5 §10.5 step 5.e re-creates a configurable property as {w, e, ¬configurable (eval: configurable)}
-    and throws TypeError for a non-configurable one that is an accessor or not writable+enumerable;
-    otto only assigns (`// TODO 10.5.5.e`). -/
-def devGlobal (g : MObj) : GOp → Bool
-  | .funDecl eval =>
-    (match alookup 0 g.props with
-     | none => false
-     | some p =>
-       if p.configurable then
-         !((match p.value with | .val _ => true | _ => false) && p.writable && p.enumerable && eval)
-       else !((match p.value with | .val _ => true | _ => false) && p.writable && p.enumerable))
-  | _ => false
-
-/-- `Dev_eval_binding_not_configurable`: a `var` / function declaration in eval code creates a new
-    global binding: ES5 §10.4.2 + §10.5 make it configurable (deletable), otto never marks a scope as eval code -/
-def devEvalBinding (g : MObj) : GOp → Bool
-  | .varDecl true => !gHas g
-  | .funDecl true => !gHas g
-  | _ => false
-
-def devGRun (g : MObj) : List GOp → List String
-  | [] => []
-  | op :: ops =>
-    (if devGlobal g op then ["global_function_redeclare"] else []) ++
-    (if devEvalBinding g op then ["eval_binding_not_configurable"] else []) ++ devGRun (gStep g op).1 ops
 
 def gop? (tok : String) : Option GOp :=
   match tok.splitOn "." with
@@ -274,14 +209,12 @@ def handle (ws : List String) : String :=
     | none => "bad-op"
     | some ops =>
       let g0 : MObj := ⟨none, true, []⟩
-      let dev := dedup (devGRun g0 ops)
-      joinOr ";" ((gRun g0 ops).map gobsS) ++ " " ++ joinOr ";" ((Spec.gRun ⟨none, true, []⟩ ops).map gobsS) ++ " " ++ joinOr "," dev
+      joinOr ";" ((gRun g0 ops).map gobsS) ++ " " ++ joinOr ";" ((Spec.gRun ⟨none, true, []⟩ ops).map gobsS) ++ " -"
   | "a" :: toks =>
     match aops? toks with
     | none => "bad-op"
     | some ops =>
-      let dev := dedup (devArgRun (argInit 4 5) ops)
-      arunS (argRun (argInit 4 5) ops) ++ " " ++ arunS (Spec.argRun (Spec.argInit 4 5) ops) ++ " " ++ joinOr "," dev
+      arunS (argRun (argInit 4 5) ops) ++ " " ++ arunS (Spec.argRun (Spec.argInit 4 5) ops) ++ " -"
   | _ => "bad-op"
 
 end OttoVerif.C07.Driver
